@@ -157,6 +157,10 @@ def _nth(L: int, i: int) -> str:
     return "".join(out)
 
 
+# every short string is also tried as the inside of a complete construct ("start a comment or declaration")
+WRAPS = [("<!--", "-->"), ("<!", ">"), ("<", ">"), ("&", ";"), ("<![CDATA[", "]]>")]
+
+
 def body_short(case, note):
     import htmltools as h
 
@@ -166,6 +170,8 @@ def body_short(case, note):
         check(fast_match_all(o, s), "html_escape output does not decode back / is not inert", s, o)
         o2 = h.Tag("div", s).get_html_string()
         check(o2.startswith("<div>") and o2.endswith("</div>") and fast_match_all(o2[5:-6], s), "single text child not inert", s, o2)
+        o4 = h.Tag("p", s, "y").get_html_string()
+        check(o4.startswith("<p>\n  ") and o4.endswith("y\n</p>") and fast_match_all(o4[6:-6], s), "text child with a sibling not inert", s, o4)
         note(True)
         return
     esc = h.html_escape
@@ -185,6 +191,17 @@ def body_short(case, note):
         if not (o2.startswith("<div>") and o2.endswith("</div>") and o2[5:-6] == o):
             if not (o2.startswith("<div>") and o2.endswith("</div>") and fast_match_all(o2[5:-6], s)):
                 raise Violation(f"Tag('div', {s!r}) renders {o2!r}", case={"s": s})
+        if case["len"] <= 3 or i % 7 == 0:
+            for a, b in WRAPS:
+                w = a + s + b
+                n += 1
+                nt += 1
+                o3 = Tag("p", w).get_html_string()
+                if not (o3.startswith("<p>") and o3.endswith("</p>") and fast_match_all(o3[3:-4], w)):
+                    raise Violation(f"Tag('p', {w!r}) renders {o3!r}", case={"s": w})
+                o4 = Tag("p", w, "y").get_html_string()
+                if not (o4.startswith("<p>\n  ") and o4.endswith("y\n</p>") and fast_match_all(o4[6:-6], w)):
+                    raise Violation(f"Tag('p', {w!r}, 'y') renders {o4!r}", case={"s": w})
     note.bulk(n, nt, sample={"len": case["len"], "lo": case["lo"], "first": _nth(case["len"], case["lo"])} if case["lo"] == 0 and case["len"] in (2, 4) else None)
 
 
@@ -200,8 +217,48 @@ def long_text():
     return st.builds(lambda s, k: (s or "<&>") * k, gen.any_text(), st.integers(8, 40)).map(lambda s: s[:400] if len(s) >= 64 else (s * 64)[:80])
 
 
+class _IntSub(int):
+    """an int subclass with its own text (IntEnum members, units, ...): 'numbers are rendered as their str() text'"""
+
+    def __new__(cls, v, text):
+        o = super().__new__(cls, v)
+        o.text = text
+        return o
+
+    def __str__(self):
+        return self.text
+
+    __repr__ = __str__
+
+
+class _FloatSub(float):
+    def __new__(cls, v, text):
+        o = super().__new__(cls, v)
+        o.text = text
+        return o
+
+    def __str__(self):
+        return self.text
+
+    __repr__ = __str__
+
+
+def slot_obj(v):
+    """recipe value -> the child object handed to the library"""
+    if isinstance(v, dict):
+        return (_IntSub if v["numsub"] == "int" else _FloatSub)(v["v"], v["text"])
+    return v
+
+
+def slot_text(v) -> str:
+    if isinstance(v, dict):
+        return v["text"]
+    return v if isinstance(v, str) else str(v)
+
+
 def slot_values():
-    return st.one_of(gen.any_text(), gen.any_text(), gen.numbers(), long_text())
+    numsub = st.builds(lambda t, v, s: {"numsub": t, "v": v if t == "int" else float(v), "text": s}, st.sampled_from(["int", "float"]), st.integers(-5, 5), gen.any_text())
+    return st.one_of(gen.any_text(), gen.any_text(), gen.any_text(), gen.numbers(), long_text(), numsub)
 
 
 def tree_strategy():
@@ -241,7 +298,7 @@ def case_strategy():
             "roots": st.lists(st.one_of(tree_strategy(), st.builds(lambda v: {"k": "slot", "v": v}, slot_values())), min_size=1, max_size=3),
             "indent": st.integers(0, 3),
             "eol": st.sampled_from(EOLS),
-            "prior": st.booleans(),
+            "prior": st.sampled_from([False, False, "trusted", "failed", "both"]),
         }
     )
 
@@ -265,7 +322,7 @@ class _Builder:
             self.n += 1
             self.slots.append(r["v"])
             if self.real:
-                return r["v"]
+                return slot_obj(r["v"])
             return PH % i
         if k == "html":
             return h.HTML(r["s"])
@@ -324,6 +381,15 @@ class _Builder:
         return obj
 
 
+class _BoomError(Exception):
+    pass
+
+
+class _Boom:
+    def _repr_html_(self):
+        raise _BoomError("user code failed while rendering")
+
+
 class _ObjTfy:
     """Tagifiable whose expansion is an already built object (tagified on demand)."""
 
@@ -337,7 +403,7 @@ class _ObjTfy:
             return self.obj.tagify()
         if self.obj is None:
             return h.TagList()
-        if isinstance(self.obj, (int, float)):
+        if isinstance(self.obj, (int, float)) and not isinstance(self.obj, bool):
             return h.TagList(self.obj)
         return self.obj
 
@@ -365,7 +431,10 @@ def body_slots(case, note):
     objs0 = [b0.node(r) for r in case["roots"]]
     b1 = _Builder(True)
     objs1 = [b1.node(r) for r in case["roots"]]
-    if case.get("prior"):
+    prior = case.get("prior")
+    if prior is True:
+        prior = "trusted"
+    if prior in ("trusted", "both"):
         # history: the very same characters were rendered earlier in this process as *trusted* markup and as an
         # attribute value; a plain child must be escaped all the same
         import htmltools as h
@@ -376,6 +445,18 @@ def body_slots(case, note):
                 h.TagList(h.HTML(v)).get_html_string()
                 h.Tag("p", h.HTML(v)).get_html_string()
                 h.Tag("script", v).get_html_string()
+    if prior in ("failed", "both"):
+        # history: earlier renderings in this process *raised* half way (the documented error for a child that was
+        # never expanded; a self-rendering object whose _repr_html_ raises), inside raw-text and ordinary elements
+        import htmltools as h
+
+        for nm in ("script", "style", "div"):
+            for kids in (("x<y", Tfy({"k": "text", "s": "z"})), (h.Tag("p", "a<b", _Boom()), "c&d"), ("q", h.Tag("b", "r", Tfy({"k": "text", "s": "z"}), _add_ws=False))):
+                for f in (lambda t: t.get_html_string(), lambda t: h.TagList("w", t).get_html_string(case["indent"], case["eol"])):
+                    try:
+                        f(h.Tag(nm, *kids))
+                    except (RuntimeError, _BoomError):
+                        pass
     outs0 = _render(objs0, case, b0.has_tfy)
     outs1 = _render(objs1, case, b1.has_tfy)
     slots = b0.slots
@@ -392,7 +473,7 @@ def body_slots(case, note):
             check(bool(pos), f"{label}: output structure differs from the placeholder template near segment {j}", lit, r1, r0)
             if j < len(idxs):
                 v = slots[idxs[j]]
-                text = v if isinstance(v, str) else str(v)
+                text = slot_text(v)
                 nxt = set()
                 for p in pos:
                     nxt |= E.match(r1, p, text, META, META)
@@ -401,15 +482,19 @@ def body_slots(case, note):
                     check(False, f"{label}: text child {text!r} is not emitted as inert data: " + E.explain(r1, p, text, META, META), r1)
                 pos = nxt
         check(len(r1) in pos, f"{label}: trailing output differs from the template", r1, r0)
-    meta_slots = [v for v in slots if isinstance(v, str) and META & set(v)]
+    meta_slots = [v for v in slots if META & set(slot_text(v))]
     only_child = len(case["roots"]) == 1 and case["roots"][0]["k"] == "tag" and len(case["roots"][0]["kids"]) == 1
     classes = ["how:" + x for x in sorted(b0.hows)]
     if any(not isinstance(v, str) for v in slots):
         classes.append("number")
+    if any(isinstance(v, dict) and META & set(v["text"]) for v in slots):
+        classes.append("number-subclass-with-metachar-text")
     if any(isinstance(v, str) and len(v) >= 64 for v in slots):
         classes.append("long-text")
-    if case.get("prior"):
+    if prior in ("trusted", "both"):
         classes.append("prior-trusted-render")
+    if prior in ("failed", "both"):
+        classes.append("prior-failed-render")
     note(bool(meta_slots) and not only_child, *classes)
 
 
@@ -437,7 +522,7 @@ CLAUSES = [
         quick=1200,
         thorough=20000,
         shards_quick=4,
-        required=("how:append", "how:extend", "how:insert", "how:list", "how:tfy", "how:ctor", "number", "long-text", "prior-trusted-render", "how:renamed"),
+        required=("how:append", "how:extend", "how:insert", "how:list", "how:tfy", "how:ctor", "number", "long-text", "prior-trusted-render", "prior-failed-render", "number-subclass-with-metachar-text", "how:renamed"),
         rule="metachar slot not an only child",
         fuzz=60000,
     ),
